@@ -156,3 +156,91 @@ def conds_holding_at(cfg: CFG, node: Node) -> List[Tuple[ast.expr, bool]]:
 
 def unparse(n: Optional[ast.AST]) -> str:
     return ast.unparse(n) if n is not None else "<none>"
+
+
+# ---------------------------------------------------------------------------
+# Propositional reasoning over branch atoms (finite truth table; no solver)
+# ---------------------------------------------------------------------------
+
+def bool_skeleton(e: ast.expr, atoms: List[ast.expr]):
+    """Compile a boolean expression into a function valuation -> bool over the
+    list `atoms` (extended in place; atoms are identified by normalised text)."""
+    if isinstance(e, ast.BoolOp):
+        subs = [bool_skeleton(v, atoms) for v in e.values]
+        if isinstance(e.op, ast.Or):
+            return lambda val, subs=subs: any(s(val) for s in subs)
+        return lambda val, subs=subs: all(s(val) for s in subs)
+    if isinstance(e, ast.UnaryOp) and isinstance(e.op, ast.Not):
+        s = bool_skeleton(e.operand, atoms)
+        return lambda val, s=s: not s(val)
+    if isinstance(e, ast.Constant) and isinstance(e.value, bool):
+        return lambda val, c=e.value: c
+    key = "".join(ast.unparse(e).split())
+    for i, a in enumerate(atoms):
+        if "".join(ast.unparse(a).split()) == key:
+            return lambda val, i=i: val[i]
+    atoms.append(e)
+    i = len(atoms) - 1
+    return lambda val, i=i: val[i]
+
+
+def forced_atoms(conds: List[Tuple[ast.expr, bool]], max_atoms: int = 12):
+    """Given branch facts (expr, polarity) that all hold, return
+    (atoms, forced) where forced[i] is True/False when every satisfying
+    valuation gives atom i that value, else None.  `unsat` (no satisfying
+    valuation) is reported as forced = 'unsat'."""
+    import itertools
+
+    atoms: List[ast.expr] = []
+    fns = [(bool_skeleton(e, atoms), pol) for (e, pol) in conds]
+    if len(atoms) > max_atoms:
+        return atoms, None
+    sat = []
+    for val in itertools.product([False, True], repeat=len(atoms)):
+        if all(fn(val) == pol for (fn, pol) in fns):
+            sat.append(val)
+    if not sat:
+        return atoms, "unsat"
+    forced = []
+    for i in range(len(atoms)):
+        vs = {v[i] for v in sat}
+        forced.append(vs.pop() if len(vs) == 1 else None)
+    return atoms, forced
+
+
+def path_facts(fi_node: ast.FunctionDef, node: Node, inline_bools: bool = True) -> List[Tuple[ast.expr, bool]]:
+    """Branch conditions holding on every path to `node`, with local names that
+    are uniquely defined as boolean expressions inlined."""
+    from .dataflow import Resolver as _R
+
+    cfg = cfg_of(fi_node)
+    out = []
+    for (t, pol) in cfg.conditions_on_all_paths(node.id):
+        if inline_bools:
+            tn = flow_of(fi_node).node_containing(t)
+            t = _inline_bool_names(fi_node, t, tn)
+        out.append((t, pol))
+    return out
+
+
+def _inline_bool_names(fn: ast.FunctionDef, e: ast.expr, at: Optional[Node], depth: int = 0) -> ast.expr:
+    """Replace Names that appear in boolean positions and are uniquely defined
+    by a boolean expression (BoolOp / Compare / Not / call) with that expression."""
+    import copy as _copy
+
+    flow = flow_of(fn)
+    if depth > 4 or at is None:
+        return e
+
+    def inline(x):
+        if isinstance(x, ast.BoolOp):
+            return ast.BoolOp(op=x.op, values=[inline(v) for v in x.values])
+        if isinstance(x, ast.UnaryOp) and isinstance(x.op, ast.Not):
+            return ast.UnaryOp(op=ast.Not(), operand=inline(x.operand))
+        if isinstance(x, ast.Name):
+            ds = flow.reaching(at, x.id)
+            if len(ds) == 1 and ds[0].kind == "assign" and not ds[0].path and isinstance(ds[0].value, (ast.BoolOp, ast.Compare, ast.UnaryOp)):
+                return _inline_bool_names(fn, _copy.deepcopy(ds[0].value), ds[0].node, depth + 1)
+        return x
+
+    return inline(e)
